@@ -50,6 +50,8 @@ class DTrans:
     unless: list = field(default_factory=list)
     on: list = field(default_factory=list)
     event_as_list: bool = True                   # event=[..] vs event="a b"
+    any_group: int = 0                           # >0: written, with the other members of the group (one per non-final
+                                                 # state, same target and arguments), as `<attr> = tgt.from_.any(...)`
 
 
 @dataclass
@@ -321,6 +323,19 @@ def gen_scenario(rng: random.Random, name: str, ids=None) -> DScn:
                 *rng.sample(GUARD_POOL, 2))
             t.cond.append([expr, "name"])
         t.on = inline(ACTION_POOL, 2, 0.6 if t.internal else 0.2)
+    spare = [e for e in EVENT_POOL if e not in evs and e not in ids]
+    if spare and rng.random() < 0.3:
+        # one event declared with `from_.any()`: the same transition out of every non-final state, guards included
+        ev = rng.choice(spare)
+        tgt = rng.randrange(n)
+        proto = DTrans(src=0, tgt=tgt, attr=ev)
+        proto.cond = inline(GUARD_POOL, 2, 0.6)
+        proto.unless = inline([g for g in GUARD_POOL if g not in [c[0] for c in proto.cond]], 2, 0.4)
+        proto.on = inline(ACTION_POOL, 2, 0.3)
+        for k in nonfinal:
+            s.trans.append(DTrans(src=k, tgt=tgt, attr=ev, cond=[list(c) for c in proto.cond],
+                                  unless=[list(c) for c in proto.unless], on=[list(c) for c in proto.on], any_group=1))
+        evs.append(ev)
     for e in evs:
         if rng.random() < 0.2:
             provide(f"on_{e}")
